@@ -128,9 +128,10 @@ class Asn1Type(Asn1Item):
                 :obj:`True` if *other* is a subtype of |ASN.1| type,
                 :obj:`False` otherwise.
         """
-        return (not matchTags or
-                (self.tagSet.isSuperTagSetOf(other.tagSet)) and
-                 (not matchConstraints or self.subtypeSpec.isSuperTypeOf(other.subtypeSpec)))
+        return ((not matchTags or
+                 self.tagSet.isSuperTagSetOf(other.tagSet)) and
+                (not matchConstraints or
+                 self.subtypeSpec.isSuperTypeOf(other.subtypeSpec)))
 
     @staticmethod
     def isNoValue(*values):
